@@ -5,7 +5,8 @@ import ast
 from typing import Any, Dict, List, Optional
 
 from . import terms as T
-from .progdb import AnalysisError, call_name
+from . import progdb as _progdb
+from .progdb import _sig_of, AnalysisError, call_name
 from .values import (Columns, DefaultDict, ClassRef, Each, EnumRef, ExtMod, Frame, FuncRef, GroupBy, Obj, PyTuple, Ser, to_term)
 
 _CMP = {"Lt": "<", "LtE": "<=", "Gt": ">", "GtE": ">=", "Eq": "==", "NotEq": "!=", "Is": "==", "IsNot": "!="}
@@ -380,7 +381,13 @@ class Model:
             else:
                 kw[k.arg] = I.eval(k.value)
         if I.call_hook is not None:
-            r = I.call_hook(I, name, pos, kw, e)
+            # hooks see every argument under its parameter name as well (callees in the signature table), so that they do not depend on the argument style
+            kw_hook = dict(kw)
+            sig = _sig_of(e, _progdb.SIGS)
+            if sig is not None and not any(isinstance(a, ast.Starred) for a in e.args):
+                for p_, v_ in zip(sig, pos):
+                    kw_hook.setdefault(p_, v_)
+            r = I.call_hook(I, name, pos, kw_hook, e)
             if r is not NotImplemented:
                 return r
         callee = I.eval(e.func)
